@@ -62,6 +62,10 @@ pub struct TlsCase {
     /// attempt, and each of them must get the response or the handshake's error
     #[serde(default)]
     pub concurrent: u8,
+    /// a transport fault on the first connection: (towards the server?, end-of-stream or reset,
+    /// after this many bytes) - at 0 the very first write or read of the handshake fails
+    #[serde(default)]
+    pub pipe_fault: Option<(bool, crate::net::FaultKind, u64)>,
 }
 
 pub struct TlsSim;
@@ -314,6 +318,14 @@ impl Scenario for TlsSim {
             prior_plain: false,
             host_header: if r.chance(1, 4) { Some(r.pick(&["sim.test", "other.example", "a.test:8443", "127.0.0.1"]).to_string()) } else { None },
             concurrent: *Rng::keyed(seed, "tls/concurrent").weighted(&[(3, 0u8), (1, 2), (1, 3)]),
+            pipe_fault: {
+                let mut f = Rng::keyed(seed, "tls/pipe_fault");
+                if f.chance(1, 4) {
+                    Some((f.bool(), *f.pick(&[crate::net::FaultKind::Reset, crate::net::FaultKind::Eof]), *f.pick(&[0u64, 1, 5, 50, 200, 300, 1000, 3000])))
+                } else {
+                    None
+                }
+            },
         }
     }
 
@@ -337,6 +349,9 @@ impl Scenario for TlsSim {
                 let _g = super::AbortOnDrop(pump);
                 let mut plan = NetPlan::plain();
                 plan.io_faulty = case.io_faulty;
+                if let Some((c2s, kind, at)) = case.pipe_fault {
+                    plan.faults.push(ConnFault { conn: 0, dir: if c2s { Dir::C2S } else { Dir::S2C }, kind, at });
+                }
                 let net = Network::new(case.seed, plan);
                 let log = Arc::new(Mutex::new(HandlerLog::default()));
                 let sni_seen = Arc::new(Mutex::new(vec![]));
@@ -403,7 +418,8 @@ impl Scenario for TlsSim {
                             let handles: Vec<_> = (0..=concurrent).map(|_| tokio::task::spawn_local(one(svc.clone(), make_req(true)))).collect();
                             let mut results: Vec<One> = vec![];
                             for h in handles {
-                                results.push(h.await.unwrap_or_else(|e| Err(format!("request task: {}", e))));
+                                // (no task ids in the text: they differ from run to run)
+                                results.push(h.await.unwrap_or_else(|e| Err(if e.is_panic() { "request task panicked".to_string() } else { "request task cancelled".to_string() })));
                             }
                             if results.iter().all(|r| r.is_ok()) {
                                 results.remove(0)
@@ -507,11 +523,12 @@ impl Scenario for TlsSim {
             viol("tls_on_plain_scheme", "first_bytes", format!("{}: scheme is not https/wss but the first bytes are not a plaintext request: {:02x?}", uri, &first[..first.len().min(8)]));
         }
         // (d) no retry (several concurrent requests may legitimately dial more than once)
+        let transport_fault = case.pipe_fault.is_some();
         if dials > 1 && concurrent == 0 {
             viol("redial_after_failure", "dials", format!("{}: {} dials for one connection attempt", uri, dials));
         }
         if let Err(e) = &res {
-            if e.starts_with("HANG") && !matches!(case.peer, Peer::RawTruncated { stall: true, .. }) {
+            if e.starts_with("HANG") && !matches!(case.peer, Peer::RawTruncated { stall: true, .. }) && !transport_fault {
                 viol("handshake_hangs", "hang", format!("{} against {:?}: {}", uri, case.peer, e));
             }
         }
@@ -529,7 +546,7 @@ impl Scenario for TlsSim {
                     format!("{} succeeded although peer={:?} cert={:?} (host covered by the certificate: {})", uri, case.peer, case.cert, host_in_good_cert(&case.host)),
                 );
             }
-            if !ok && expect_ok {
+            if !ok && expect_ok && !transport_fault {
                 viol("rejected_good_peer", "verification", format!("{} failed against a real TLS server with a valid certificate for that host: {:?}", uri, res.as_ref().err()));
             }
             // handler reached only through verified TLS
@@ -546,13 +563,14 @@ impl Scenario for TlsSim {
                     }
                 }
             }
-        } else if expect_ok && !ok && case.peer == Peer::RealPlain {
+        } else if expect_ok && !ok && case.peer == Peer::RealPlain && !transport_fault {
             viol("plain_scheme_failed", "plain", format!("{} against a plaintext server failed: {:?}", uri, res.as_ref().err()));
         }
         if ok && expect_ok {
             if let Ok((status, id, body)) = &res {
                 let real = matches!(case.peer, Peer::RealTls | Peer::RealPlain);
-                if real && (*status != status_for(1) || id.as_deref() != Some("1") || body[..] != resp_body(1, 300)[..]) {
+                // (a stream cut by an injected transport fault may end anywhere)
+                if real && !transport_fault && (*status != status_for(1) || id.as_deref() != Some("1") || body[..] != resp_body(1, 300)[..]) {
                     viol("wrong_response", "response", format!("{}: response over the established stream is wrong (status {}, id {:?}, {} body bytes)", uri, status, id, body.len()));
                 }
             }
@@ -572,6 +590,10 @@ impl Scenario for TlsSim {
         sig.push_str(&match &case.peer { Peer::RawTruncated { at, stall } => format!("trunc{}-{}", at / 64, stall), p => format!("{:?}", p) });
         sig.push(case.via_client as u64 + 2 * concurrent as u64);
         sig.push_str(case.host_header.as_deref().unwrap_or("-"));
+        if let Some((c2s, kind, at)) = case.pipe_fault {
+            sig.push(1 + c2s as u64 + 2 * (kind == crate::net::FaultKind::Reset) as u64 + 4 * at.min(301));
+            out.count(&format!("fault.transport_{:?}_under_tls", kind).to_lowercase());
+        }
         out.abstract_sig = sig.0;
         let mut log = Digest::default();
         log.push(ok as u64);
@@ -594,6 +616,13 @@ impl Scenario for TlsSim {
         if case.concurrent > 0 {
             let mut c = case.clone();
             c.concurrent -= 1;
+            v.push(c);
+        }
+        if case.pipe_fault.is_some() && (case.io_faulty || case.concurrent > 0 || case.host_header.is_some()) {
+            let mut c = case.clone();
+            c.io_faulty = false;
+            c.concurrent = 0;
+            c.host_header = None;
             v.push(c);
         }
         if case.via_client && case.concurrent == 0 {
@@ -642,7 +671,21 @@ fn enumerated() -> Vec<TlsCase> {
         prior_plain: false,
         host_header: None,
         concurrent: 0,
+        pipe_fault: None,
     };
+    // the transport fails under the handshake (or later): an error, never a panic, never clear text
+    for at in [0u64, 1, 5, 50, 200, 300, 1000, 3000] {
+        for kind in [crate::net::FaultKind::Reset, crate::net::FaultKind::Eof] {
+            for c2s in [true, false] {
+                for via_client in [false, true] {
+                    let mut c = base("https", "sim.test", CertKind::Good, Peer::RealTls);
+                    c.via_client = via_client;
+                    c.pipe_fault = Some((c2s, kind, at));
+                    v.push(c);
+                }
+            }
+        }
+    }
     // several requests behind one connection attempt whose handshake fails, or succeeds
     for (peer, cert) in [
         (Peer::RawClose, CertKind::Good),
